@@ -270,12 +270,17 @@ func genC09(t *rapid.T) c09Case {
 					add(Assign{Name: ch.Var, Kind: "item", Rename: nm.draw(t)})
 				case 4:
 					val := genTree(t, treeOpts{Vars: true, NoDeep: true, MaxDepth: 2, MaxElems: 3, VarPct: 50}, nm)
+					if inner := singleFills(val); len(inner) > 0 && rapid.IntRange(0, 2).Draw(t, "reusePlaceholderName") == 2 {
+						// the inserted item has a variable with the very name of the placeholder it replaces (legal: the
+						// placeholder is gone afterwards, the list of names may even look unchanged)
+						renameVar(val, inner[rapid.IntRange(0, len(inner)-1).Draw(t, "whichInner")].Name, ch.Var)
+					}
 					add(Assign{Name: ch.Var, Kind: "item", Node: val})
 					// the same map may also name variables that the inserted value brings along: substitution is
 					// simultaneous on the template, so the value "is inserted as is" and those keys hit nothing
 					if rapid.Bool().Draw(t, "keyForBroughtVariable") {
 						for _, inner := range singleFills(val) {
-							if rapid.Bool().Draw(t, "thisOne") {
+							if inner.Name != ch.Var && rapid.Bool().Draw(t, "thisOne") {
 								add(inner)
 								broughtKeys++
 							}
@@ -404,4 +409,23 @@ func swapLetterCase(s string) string {
 		}
 	}
 	return string(b)
+}
+
+// renameVar renames one variable of a model tree (element, ASCII or item variable).
+func renameVar(n *model.Node, from, to string) {
+	n.Walk(func(x *model.Node) {
+		for i := range x.Elems {
+			if x.Elems[i].Var == from {
+				x.Elems[i].Var = to
+			}
+		}
+		if x.AVar != nil && x.AVar.Name == from {
+			x.AVar.Name = to
+		}
+		for i := range x.Children {
+			if x.Children[i].Node == nil && x.Children[i].Var == from {
+				x.Children[i].Var = to
+			}
+		}
+	})
 }
